@@ -49,6 +49,48 @@ def _lib_arg(v):
     return wbrun.py_value(v)
 
 
+def published_stale(m, func, desc, I, args, ctx=None):
+    """-> (node id, published value, supplied value) of the first member of a
+    range input that no node defines and whose value in the solution the
+    function reads blanks from is not the one supplied in this call; None if
+    all are current.  Only ranges whose inverse runs inside the function."""
+    sol_ = getattr(m.dsp, 'solution', None) or {}
+    inv_ = set()
+    try:
+        import schedula as sh_
+        from formulas.cell import InvRangesAssembler
+        for nd in func.dsp.function_nodes.values():
+            f_ = nd['function']
+            if isinstance(f_, InvRangesAssembler) and sh_.SELF in nd['inputs']:
+                inv_.add(f_.assembler.output)
+    except Exception:
+        return None
+    for (kind, key), a in zip(I, args):
+        if kind != 'range' or not isinstance(a, list):
+            continue
+        if gw.rect_key(desc, *key) not in inv_:
+            continue    # the function does not run the inverse of this range
+        b_, s_, c1, r1, c2, r2 = key
+        for ri, r in enumerate(range(r1, r2 + 1)):
+            for ci, c in enumerate(range(c1, c2 + 1)):
+                nid = gw.key_of(desc, b_, s_, c, r)
+                if nid in m.dsp.nodes or nid not in sol_:
+                    continue
+                if ctx is not None:
+                    ctx.count('monitor.published-member-current')
+                try:
+                    pub = xl.canon(xl.scalar(sol_[nid]))
+                except Exception:
+                    continue
+                sup = wbrun.canon_value(a[ri][ci])
+                if sup in (xl.BLANK, xl.c_text('')):
+                    continue
+                if not xl.same(pub, sup):
+                    return nid, pub, sup
+    return None
+
+
+
 def check_model_case(case, ctx):
     """case: desc, I: [[kind, key...]], O: [cell keys], args: [tuples]"""
     desc = case['desc']
@@ -127,41 +169,12 @@ def check_model_case(case, ctx):
             # where the inverse of a range input published the values of members
             # that no node defines (into the solution the function reads blanks
             # from), they must be those of *this* call
-            sol_ = getattr(m.dsp, 'solution', None) or {}
-            inv_ = set()
-            try:
-                import schedula as sh_
-                from formulas.cell import InvRangesAssembler
-                for nd in func.dsp.function_nodes.values():
-                    f_ = nd['function']
-                    if isinstance(f_, InvRangesAssembler) and sh_.SELF in nd['inputs']:
-                        inv_.add(f_.assembler.output)
-            except Exception:
-                pass
-            for (kind, key), a in zip(case['I'], args):
-                if kind != 'range' or not isinstance(a, list):
-                    continue
-                if gw.rect_key(desc, *key) not in inv_:
-                    continue    # the function does not run the inverse of this range
-                b_, s_, c1, r1, c2, r2 = key
-                for ri, r in enumerate(range(r1, r2 + 1)):
-                    for ci, c in enumerate(range(c1, c2 + 1)):
-                        nid = gw.key_of(desc, b_, s_, c, r)
-                        if nid in m.dsp.nodes or nid not in sol_:
-                            continue
-                        ctx.count('monitor.published-member-current')
-                        try:
-                            pub = xl.canon(xl.scalar(sol_[nid]))
-                        except Exception:
-                            continue
-                        sup = wbrun.canon_value(a[ri][ci])
-                        if sup in (xl.BLANK, xl.c_text('')):
-                            continue
-                        if not xl.same(pub, sup):
-                            ctx.violation('stale-published-member:%s' % wbrun._cls(pub), dict(
-                                w, cell=nid, call_number=n_call, observed=xl.show(pub),
-                                accepted=[xl.show(sup) + ' (the value supplied in this call)']))
-                            break
+            stale = published_stale(m, func, desc, case['I'], args, ctx)
+            if stale:
+                nid, pub, sup = stale
+                ctx.violation('stale-published-member:%s' % wbrun._cls(pub), dict(
+                    w, cell=nid, call_number=n_call, observed=xl.show(pub),
+                    accepted=[xl.show(sup) + ' (the value supplied in this call)']))
         try:
             sol = m.calculate(inputs=dict(zip(in_ids, lib_args)), outputs=out_ids)
             want = wbrun.observed_outputs(desc, sol, out_keys, out_ids)
